@@ -34,6 +34,7 @@ type input struct {
 	Origin string `json:"origin"`           // where the bytes come from (seed, mutation)
 	Text   string `json:"text,omitempty"`   // the bytes as text when printable (information only)
 	Pos    string `json:"nil_position,omitempty"` // nil enumeration: the repeated/map field whose element is nil
+	Flood  *floodIn `json:"flood,omitempty"` // a frame-flood scenario (flood.go) instead of bytes
 	Kind   string `json:"-"`
 }
 
